@@ -192,6 +192,10 @@ def _residue_kind(test: ast.expr) -> Optional[Tuple[str, str]]:
     while isinstance(t, ast.UnaryOp) and isinstance(t.op, ast.Not):
         neg = not neg
         t = t.operand
+    # comparisons are canonical (src._CanonCompare): `x % k > 0` reads `0 < x % k`
+    if isinstance(t, ast.Compare) and len(t.ops) == 1 and isinstance(t.ops[0], ast.Lt) and isinstance(t.left, ast.Constant) \
+            and t.left.value == 0 and isinstance(t.comparators[0], ast.BinOp) and isinstance(t.comparators[0].op, ast.Mod):
+        t = ast.Compare(left=t.comparators[0], ops=[ast.NotEq()], comparators=[t.left])
     if isinstance(t, ast.Compare) and len(t.ops) == 1 and isinstance(t.comparators[0], ast.Constant) \
             and t.comparators[0].value == 0 and isinstance(t.left, ast.BinOp) and isinstance(t.left.op, ast.Mod):
         k = "zero" if isinstance(t.ops[0], ast.Eq) else ("nonzero" if isinstance(t.ops[0], (ast.NotEq, ast.Gt)) else None)
@@ -718,7 +722,10 @@ def final_step_saved_once(ctx, frs, cfg, ev):
         t = node.ast.test
         txt = norm(t)
         if isinstance(t, ast.Compare) and "end_time" in txt and "self.time" in txt and len(t.ops) == 1:
-            return {"true"} if isinstance(t.ops[0], (ast.GtE, ast.Gt)) else {"false"}      # last iteration: the stop test fires
+            # last iteration: the clock has reached the end time.  Canonical spelling: `self.time >= end_time` reads `end_time <= self.time`
+            reached = (isinstance(t.ops[0], (ast.LtE, ast.Lt)) and "end_time" in norm(t.left)) or \
+                      (isinstance(t.ops[0], (ast.GtE, ast.Gt)) and "self.time" in norm(t.left))
+            return {"true"} if reached else {"false"}
         parts = t.values if isinstance(t, ast.BoolOp) and isinstance(t.op, ast.And) else [t]
         vals = []
         for p_ in parts:
